@@ -1,5 +1,6 @@
 import HC.Proto.H2Send
 import HC.Proto.H2SendEvents
+import HC.Proto.H2Credit
 import HC.Extracted.Excepts
 /-!
 # C09 — HTTP/2 flow control is respected; multiplexed delivery is live and ordered
@@ -52,6 +53,13 @@ theorem statement_order_assumed :
     Atomic.h2BufferClose = ["self._complete = True", "self._closed = True", "self.buffer = bytearray()", "await self._is_empty.set()",
                             "await self._paused.set()"] := by
   decide
+
+/-- the recovery from a priority tree that schedules a stream it does not know (`MissingStreamError` inside the `except`
+    clause of `_send_data`): a fresh tree into which every buffered stream is inserted - active, nothing blocks it again -/
+theorem rebuild_assumed :
+    Atomic.h2SendDataExcept = ["self.stream_buffers.pop", "stream_buffer.close", "self.priority.remove_stream", "priority.PriorityTree",
+                               "self.priority.insert_stream"] ∧
+    Atomic.h2SendDataRebuild = ["insert"] ∧ Atomic.h2RebuildBlocks = false := by decide
 
 /-- the `except` clauses the model's "swallowed" branches stand for -/
 theorem except_clauses_assumed :
@@ -317,12 +325,82 @@ abbrev allOk : St → List Op → Prop := allQ opOk
 theorem inv_run (ops : List Op) : ∀ (s s' : St), Inv s → allOk s ops → runOk s ops = some s' → Inv s' :=
   run_invariant Inv opOk inv_step ops
 
-/-- the states of all runs from the start of a connection -/
-def Reachable (s : St) : Prop := ∃ cw mf ops, 0 < mf ∧ allOk (init cw mf) ops ∧ runOk (init cw mf) ops = some s
+/-! ### the priority library handing out a stream the tree does not know (`rebuild`) -/
+
+/-- common opening for the recovery step: it is enabled only with the task at the top of its loop on an open connection,
+    for a stream without tree entry and buffer, and replaces the tree flags of every stream -/
+theorem rebuild_spec (s s' : St) (i : Nat) (hs : rebuild s i = some s') :
+    s.task = .running ∧ s.closed = false ∧ (s.str i).inTree = false ∧ (s.str i).hasBuf = false ∧
+    s' = { s with str := fun j => rebuildStr (s.str j) } := by
+  unfold rebuild at hs
+  split at hs
+  · cases hs
+  · simp only [Option.some.injEq] at hs
+    simp_all
+
+/-- **the fresh tree schedules every buffered stream**: after the recovery each stream with a buffer is a member of the
+    tree and *not* blocked (the extracted loop body inserts and never blocks), streams without a buffer are not members,
+    and nothing else changes - buffers, events, waiting senders, windows, `has_data`, the task's position -/
+theorem rebuild_unblocks (s s' : St) (i : Nat) (hs : rebuild s i = some s') :
+    (∀ j, (s'.str j).inTree = (s.str j).hasBuf ∧ ((s.str j).hasBuf = true → (s'.str j).blocked = false) ∧
+          (s'.str j) = { (s.str j) with inTree := (s'.str j).inTree, blocked := (s'.str j).blocked }) ∧
+    s'.task = s.task ∧ s'.hasData = s.hasData ∧ s'.closed = s.closed ∧ s'.connWin = s.connWin ∧ s'.maxFrame = s.maxFrame ∧
+    s'.connSent = s.connSent ∧ s'.connCredit = s.connCredit := by
+  obtain ⟨_, _, _, _, h⟩ := rebuild_spec s s' i hs
+  subst h
+  refine ⟨fun j => ?_, rfl, rfl, rfl, rfl, rfl, rfl, rfl⟩
+  simp [rebuildStr, Atomic.h2RebuildBlocks]
+
+/-- whatever non-member the library hands out, the send task survives it: the recovery is defined -/
+theorem rebuild_total (s : St) (i : Nat) (h1 : s.task = .running) (h2 : s.closed = false) (h3 : (s.str i).inTree = false)
+    (h4 : (s.str i).hasBuf = false) : (rebuild s i).isSome = true := by
+  simp [rebuild, h1, h2, h3, h4]
+
+theorem inv_rebuild (s s' : St) (i : Nat) (h : Inv s) (hs : rebuild s i = some s') : Inv s' := by
+  obtain ⟨ht, hc, _, _, he⟩ := rebuild_spec s s' i hs
+  subst he
+  obtain ⟨h1, h2, h3, h4, h5, h6, h7, h8, h9, h10, h11, h12, h13, h14⟩ := h
+  refine ⟨?_, ?_, ?_, ?_, ?_, ?_, ?_, ?_, ?_, ?_, ?_, ?_, ?_, ?_⟩
+  · intro j; have := h1 j; simpa [rebuildStr] using this
+  · intro j; have := h2 j; simpa [rebuildStr] using this
+  · intro j; have := h3 j; simpa [rebuildStr] using this
+  · intro j; have := h4 j; simpa [rebuildStr] using this
+  · exact h5
+  · exact ⟨fun j hj => by simpa [rebuildStr] using hj, h6.2⟩
+  · -- Stall: no buffered stream is blocked after the recovery
+    intro j hb hbl
+    simp [rebuildStr, Atomic.h2RebuildBlocks] at hbl
+  · intro hp; simp [ht] at hp
+  · intro j; have := h9 j; simpa [rebuildStr] using this
+  · intro j; have := h10 j; simpa [rebuildStr] using this
+  · intro j; have := h11 j; simpa [rebuildStr] using this
+  · intro j; have := h12 j; simpa [rebuildStr] using this
+  · intro j; have := h13 j; simpa [rebuildStr, ht] using this
+  · intro j; have := h14 j; simpa [rebuildStr] using this
+
+theorem inv_xstep (s s' : St) (o : XOp) (h : Inv s) (hp : xopOk s o) (hs : xstep s o = some s') : Inv s' := by
+  cases o with
+  | op o => exact inv_step s s' o h hp hs
+  | rebuild i => exact inv_rebuild s s' i h hs
+
+/-- a run of the extended machine (send path + the library's misbehaviour) in which `park` happens only at deadlock -/
+abbrev xallOk : St → List XOp → Prop := xallQ xopOk
+
+theorem inv_xrun (ops : List XOp) : ∀ (s s' : St), Inv s → xallOk s ops → xrunOk s ops = some s' → Inv s' :=
+  xrun_invariant Inv xopOk inv_xstep ops
+
+/-- the states of all runs from the start of a connection - runs in which the priority library may, at any time the send
+    task asks it, hand out a stream the tree does not know (`XOp.rebuild`) -/
+def Reachable (s : St) : Prop := ∃ cw mf ops, 0 < mf ∧ xallOk (init cw mf) ops ∧ xrunOk (init cw mf) ops = some s
+
+/-- in particular the states of the runs of the send path proper -/
+theorem reachable_of_run (cw : Int) (mf : Nat) (ops : List Op) (s : St) (hmf : 0 < mf) (hok : allOk (init cw mf) ops)
+    (hr : runOk (init cw mf) ops = some s) : Reachable s :=
+  ⟨cw, mf, ops.map .op, hmf, xallQ_lift opOk xopOk (fun _ _ h => h) ops _ hok, by rw [xrunOk_lift]; exact hr⟩
 
 theorem reachable_inv (s : St) (h : Reachable s) : Inv s := by
   obtain ⟨cw, mf, ops, hmf, hok, hr⟩ := h
-  exact inv_run ops _ s (inv_init cw mf hmf) hok hr
+  exact inv_xrun ops _ s (inv_init cw mf hmf) hok hr
 
 theorem allQ_true (ops : List Op) : ∀ s, allQ (fun _ _ => True) s ops := by
   induction ops with
@@ -336,13 +414,38 @@ theorem allQ_true (ops : List Op) : ∀ s, allQ (fun _ _ => True) s ops := by
 
 /-- **never more than the connection window allows**: with a non-negative initial connection window, the bytes sent on
     the connection never exceed the connection credit granted — in every reachable state -/
-theorem conn_sent_le_credit (cw : Int) (mf : Nat) (hmf : 0 < mf) (hcw : 0 ≤ cw) (ops : List Op) (s : St)
-    (hr : runOk (init cw mf) ops = some s) : (s.connSent : Int) ≤ s.connCredit := by
+theorem xallQ_true (ops : List XOp) : ∀ s, xallQ (fun _ _ => True) s ops := by
+  induction ops with
+  | nil => intro s; trivial
+  | cons o os ih =>
+    intro s
+    simp only [xallQ, true_and]
+    split
+    · trivial
+    · exact ih _
+
+/-- the recovery step touches neither windows nor counters -/
+theorem rebuild_windows (s s' : St) (i : Nat) (hs : rebuild s i = some s') :
+    s'.connWin = s.connWin ∧ s'.connCredit = s.connCredit ∧ s'.connSent = s.connSent ∧
+    ∀ j, (s'.str j).window = (s.str j).window ∧ (s'.str j).credit = (s.str j).credit ∧ (s'.str j).sent = (s.str j).sent := by
+  obtain ⟨_, _, _, _, h⟩ := rebuild_spec s s' i hs
+  subst h
+  exact ⟨rfl, rfl, rfl, fun j => by simp [rebuildStr]⟩
+
+theorem conn_sent_le_credit (cw : Int) (mf : Nat) (hmf : 0 < mf) (hcw : 0 ≤ cw) (ops : List XOp) (s : St)
+    (hr : xrunOk (init cw mf) ops = some s) : (s.connSent : Int) ≤ s.connCredit := by
   have hI : CNonneg s ∧ CWin s := by
-    refine run_invariant (fun s => CNonneg s ∧ CWin s) (fun _ _ => True)
-      (fun s s' o h _ hs => ⟨cnonneg_step s s' o h.1 hs, cwin_step s s' o h.2 hs⟩) ops _ s ?_ ?_ hr
+    refine xrun_invariant (fun s => CNonneg s ∧ CWin s) (fun _ _ => True) ?_ ops _ s ?_ ?_ hr
+    · intro s s' o h _ hs
+      cases o with
+      | op o => exact ⟨cnonneg_step s s' o h.1 hs, cwin_step s s' o h.2 hs⟩
+      | rebuild i =>
+        obtain ⟨w1, w2, w3, _⟩ := rebuild_windows s s' i hs
+        obtain ⟨h1, h2⟩ := h
+        unfold CNonneg CWin at *
+        omega
     · simp [CNonneg, CWin, init, hcw]
-    · exact allQ_true _ _
+    · exact xallQ_true _ _
   unfold CNonneg CWin at hI
   omega
 
@@ -351,6 +454,10 @@ def creditMonotone : Op → Prop
   | .settings d => 0 ≤ d
   | .open_ _ w => 0 ≤ w
   | _ => True
+
+def xcreditMonotone : XOp → Prop
+  | .op o => creditMonotone o
+  | .rebuild _ => True
 
 /-- every stream window is non-negative -/
 def SNonneg (s : St) : Prop := ∀ i, 0 ≤ (s.str i).window
@@ -367,12 +474,20 @@ theorem snonneg_step (s s' : St) (o : Op) (h : SNonneg s) (hp : creditMonotone o
 /-- **never more than the stream window allows**: as long as the peer never lowers INITIAL_WINDOW_SIZE (the one event that
     may legitimately make a window negative, RFC 7540 6.9.2), the bytes sent on a stream never exceed the stream credit
     granted — in every reachable state -/
-theorem stream_sent_le_credit (cw : Int) (mf : Nat) (ops : List Op) (s : St)
-    (hmono : allQ (fun _ o => creditMonotone o) (init cw mf) ops) (hr : runOk (init cw mf) ops = some s) (i : Nat) :
+theorem stream_sent_le_credit (cw : Int) (mf : Nat) (ops : List XOp) (s : St)
+    (hmono : xallQ (fun _ o => xcreditMonotone o) (init cw mf) ops) (hr : xrunOk (init cw mf) ops = some s) (i : Nat) :
     ((s.str i).sent : Int) ≤ (s.str i).credit := by
   have hI : SNonneg s ∧ Win s := by
-    refine run_invariant (fun s => SNonneg s ∧ Win s) (fun _ o => creditMonotone o)
-      (fun s s' o h hp hs => ⟨snonneg_step s s' o h.1 hp hs, win_step s s' o h.2 hs⟩) ops _ s ?_ hmono hr
+    refine xrun_invariant (fun s => SNonneg s ∧ Win s) (fun _ o => xcreditMonotone o) ?_ ops _ s ?_ hmono hr
+    · intro s s' o h hp hs
+      cases o with
+      | op o => exact ⟨snonneg_step s s' o h.1 hp hs, win_step s s' o h.2 hs⟩
+      | rebuild i =>
+        obtain ⟨_, _, _, w⟩ := rebuild_windows s s' i hs
+        obtain ⟨h1, h2⟩ := h
+        refine ⟨fun j => ?_, fun j => ?_⟩
+        · have := h1 j; have := w j; omega
+        · have := h2 j; have := w j; omega
     simp [SNonneg, Win, init]
   have h1 := hI.1 i
   have h2 := hI.2 i
@@ -549,6 +664,68 @@ theorem no_spin_step (s s' : St) (o : Op) (ht : o.isTask = true) (hs : step s o 
         (if s'.hasData then 3 else 0) + pcWeight s'.task < (if s.hasData then 3 else 0) + pcWeight s.task) := by
   cases o <;> simp only [Op.isTask] at ht <;> step_cases hs <;>
     simp_all [opStream, strWeight, pcWeight, upd, Str.discard, Str.closeBuf] <;> (try intro i) <;> (repeat' split) <;> (try simp_all) <;> (try omega)
+
+/-! ### the receive side: upload credit is conserved
+
+`_handle_events`, `DataReceived`: the frame took its *flow-controlled length* (payload + pad-length byte + padding) from
+the client's stream and connection windows; `acknowledge_received_data` must give exactly that back, on the path where
+the stream still exists and on the `KeyError` path, or the client's upload windows leak away and every upload on the
+connection stalls.  Which attribute of the event is acknowledged, and how often on each path, is extracted
+(`ReqGlue.dataAckAmount`, `dataAcksDelivered`, `dataAcksMissing`, `dataAckArgs`). -/
+
+/-- a DATA frame as the client accounts for it: payload bytes, padding overhead (0, or pad length + 1), and whether
+    `self.streams` still has the stream when the frame is handled -/
+structure UpFrame where
+  data : Nat
+  pad : Nat
+  live : Bool
+deriving Repr, DecidableEq
+
+/-- what the frame takes from the client's windows -/
+def UpFrame.flow (f : UpFrame) : Nat := f.data + f.pad
+
+/-- bytes handed to `acknowledge_received_data` while the frame's event is handled -/
+def upAcked (f : UpFrame) : Nat :=
+  (if f.live then ReqGlue.dataAcksDelivered else ReqGlue.dataAcksMissing) * ReqGlue.dataAckAmount f.data f.flow
+
+/-- the client's window after a sequence of upload frames -/
+def upRun (fs : List UpFrame) : HC.Proto.H2Credit.Win :=
+  fs.foldl (fun w f => { consumed := w.consumed + f.flow, returned := w.returned + upAcked f }) {}
+
+/-- **every DATA frame gives back what it took**: padded or not, for a live stream or for one whose response has
+    already completed, exactly the flow-controlled length is acknowledged -/
+theorem upload_frame_acked (f : UpFrame) : upAcked f = f.flow := by
+  cases f with
+  | mk d p l => cases l <;> simp [upAcked, UpFrame.flow, ReqGlue.dataAcksDelivered, ReqGlue.dataAcksMissing, ReqGlue.dataAckAmount]
+
+/-- **upload credit is conserved**: after any sequence of DATA frames - any payload sizes, any padding, live and
+    completed streams in any mix - the client's window is back at its initial value once the acknowledged bytes
+    have been announced: nothing leaks, a later upload can always be sent -/
+theorem upload_credit_conserved (fs : List UpFrame) (w0 : Nat) : (upRun fs).available w0 = w0 := by
+  have h : ∀ (fs : List UpFrame) (w : HC.Proto.H2Credit.Win), w.returned = w.consumed →
+      (fs.foldl (fun w f => ({ consumed := w.consumed + f.flow, returned := w.returned + upAcked f } : HC.Proto.H2Credit.Win)) w).returned =
+      (fs.foldl (fun w f => ({ consumed := w.consumed + f.flow, returned := w.returned + upAcked f } : HC.Proto.H2Credit.Win)) w).consumed := by
+    intro fs
+    induction fs with
+    | nil => intro w hw; exact hw
+    | cons f fs ih =>
+      intro w hw
+      simp only [List.foldl_cons]
+      apply ih
+      simp [upload_frame_acked, hw]
+  have := h fs {} rfl
+  simp only [upRun, HC.Proto.H2Credit.Win.available]
+  omega
+
+/-- the acknowledgement names the event's flow-controlled length and the event's stream -/
+theorem upload_ack_args :
+    ReqGlue.dataAckArgs = ["event.flow_controlled_length, event.stream_id"] ∧ ∀ d f, ReqGlue.dataAckAmount d f = f := by
+  exact ⟨by decide, fun _ _ => rfl⟩
+
+-- non-vacuity: padded frames on a live and on a completed stream, an empty padded frame: all of it is given back
+example : (upRun [⟨1, 256, true⟩, ⟨1, 256, false⟩, ⟨0, 1, true⟩, ⟨16384, 0, true⟩]).consumed = 16899 ∧
+    (upRun [⟨1, 256, true⟩, ⟨1, 256, false⟩, ⟨0, 1, true⟩, ⟨16384, 0, true⟩]).available 65535 = 65535 := by
+  decide
 
 -- non-vacuity: two streams, one stalls at a zero stream window, the other is delivered and ended
 example :
